@@ -197,6 +197,10 @@ func run(r *vt.Run, t vt.TB, s spec) {
 	case "syntax":
 		query = "SELECT FROM " + tableSQL
 	}
+	var beforeTruncation [][]interface{} // the table as it was while the file was whole
+	if s.Plan == "truncate" && s.Bad == "" {
+		nat.Select(nativeTable, func(row sqlittle.Row) { beforeTruncation = append(beforeTruncation, append([]interface{}{}, row...)) }, expanded...)
+	}
 	if s.Plan == "truncate" {
 		// the file loses its tail: pages the scan reaches later cannot be read
 		st, _ := os.Stat(path)
@@ -470,6 +474,28 @@ func run(r *vt.Run, t vt.TB, s spec) {
 			r.Violation(t, s, "row-differs", "%s: row %d through database/sql is %s, natively %s", query, i, renderAny(got[i]), renderAny(want[i]))
 			return
 		}
+	}
+	// a file that lost its tail: what is missing cannot be read, so every
+	// row that is delivered is a row the whole file had, unchanged (judged
+	// against the file before it was cut, not against the native API on the
+	// damaged file)
+	if s.Plan == "truncate" && beforeTruncation != nil {
+		for i := range got {
+			if i >= len(beforeTruncation) || renderAny(got[i]) != renderAny(beforeTruncation[i]) {
+				r.Violation(t, s, "truncated-file-row-differs", "%s on a file cut short: row %d through database/sql is %.200s; the whole file had %.200s there", query, i, renderAny(got[i]), func() string {
+					if i < len(beforeTruncation) {
+						return renderAny(beforeTruncation[i])
+					}
+					return "no such row"
+				}())
+				return
+			}
+		}
+		if len(got) < len(beforeTruncation) && surfaced == nil && !stoppedEarly {
+			r.Violation(t, s, "silently-short", "%s on a file cut short: %d of the %d rows the whole file had, and no error", query, len(got), len(beforeTruncation))
+			return
+		}
+		r.Count("truncated-files-judged-against-the-whole-file", 1)
 	}
 	// ---- errors surface; a short result is never silent
 	if wantErr != nil && surfaced == nil && !stoppedEarly {
